@@ -121,7 +121,7 @@ def run_models(tier):
 
 # how many of the emitted manifests of each configuration are run for real
 BUDGET = {"quick": dict(enable=300, persist=220, deny=260, mix=220, sched=24, pool1=3, raw=6),
-          "thorough": dict(enable=6000, persist=5000, deny=4320, mix=6000, sched=400, pool1=3, raw=40)}
+          "thorough": dict(enable=4000, persist=3500, deny=4320, mix=4000, sched=400, pool1=3, raw=40)}
 
 
 def pick_cases(emitted, tier, rng):
